@@ -720,8 +720,15 @@ func (t *ControllableTask) Kill() error {
 			return
 		}
 
+		// From here on the task goes down because we were asked to kill it, whatever its exit code turns out to be
+		t.setPendingFinalTaskState(mesos.TASK_KILLED)
+
 		for reachedState != "DONE" {
 			cmd := nextTransition(reachedState)
+			if cmd.Event == "EXIT" {
+				// The task may exit as soon as it gets EXIT, the launch goroutine must find the final state by then
+				t.setPendingFinalTaskState(mesos.TASK_FINISHED)
+			}
 			log.WithField("partition", t.knownEnvironmentId.String()).
 				WithField("detector", t.knownDetector).
 				WithFields(logrus.Fields{
@@ -826,14 +833,14 @@ func (t *ControllableTask) Kill() error {
 			WithField("detector", t.knownDetector).
 			WithField("taskId", t.ti.TaskID.Value).
 			Debugf("task reached DONE, will wait %.1fs before terminating it", DONE_TIMEOUT.Seconds())
-		t.pendingFinalTaskStateCh <- mesos.TASK_FINISHED
+		t.setPendingFinalTaskState(mesos.TASK_FINISHED)
 		time.Sleep(DONE_TIMEOUT)
 	} else { // something went wrong
 		log.WithField("partition", t.knownEnvironmentId.String()).
 			WithField("detector", t.knownDetector).
 			WithField("taskId", t.ti.TaskID.Value).
 			Debug("task died already or will be killed soon")
-		t.pendingFinalTaskStateCh <- mesos.TASK_KILLED
+		t.setPendingFinalTaskState(mesos.TASK_KILLED)
 	}
 
 	var killErr error
@@ -855,6 +862,18 @@ func (t *ControllableTask) Kill() error {
 		_ = syscall.Kill(-pgid, syscall.SIGKILL)
 	}
 	return killErr
+}
+
+// setPendingFinalTaskState replaces the final state which the launch goroutine reports when the task exits
+func (t *ControllableTask) setPendingFinalTaskState(state mesos.TaskState) {
+	select {
+	case <-t.pendingFinalTaskStateCh:
+	default:
+	}
+	select {
+	case t.pendingFinalTaskStateCh <- state:
+	default:
+	}
 }
 
 func (t *ControllableTask) doKill9(pid int) error {
